@@ -67,6 +67,7 @@ let rec expr_of (x : sx) : expr =
   | L [A "num"; A n] -> ENum (z_of_int (int_of_string n))
   | L [A "var"; A v] -> EVar (explode v)
   | L [A "idx"; A a; i] -> EIdx (explode a, expr_of i)
+  | L [A "addr"; A v] -> EAddr (explode v)
   | L [A "bin"; A op; l; r] -> EBin (binop_of op, expr_of l, expr_of r)
   | L [A "un"; A op; e] ->
       EUn ((match op with "-" -> Neg | "~" -> BNot | "!" -> LNot | x -> failwith ("unop " ^ x)), expr_of e)
@@ -113,7 +114,7 @@ let rec stmt_of (x : sx) : stmt =
 
 let stmts_of x = match stmt_of x with SBlock l -> l | s -> [s]
 
-let ty_of = function "u8" -> TU8 | "s8" -> TS8 | "u16" -> TU16 | "s16" -> TS16 | x -> failwith ("ty " ^ x)
+let ty_of = function "u8" -> TU8 | "s8" -> TS8 | "u16" -> TU16 | "s16" -> TS16 | "ptr" -> TPtr | x -> failwith ("ty " ^ x)
 
 type cp = {
   mutable id : string;
@@ -186,10 +187,11 @@ let () =
           | "@end" -> run p; cur := fresh ()
           | "var" ->
               (match String.split_on_char ' ' rest with
-               | [n; t; len; c] ->
+               | [n; t; len; c; addr] ->
                    p.vars <- (explode n, { v_ty = ty_of t;
                                            v_len = (if len = "-" then None else Some (z_of_int (int_of_string len)));
-                                           v_const = (c = "1") }) :: p.vars
+                                           v_const = (c = "1");
+                                           v_addr = z_of_int (int_of_string addr) }) :: p.vars
                | _ -> failwith "var")
           | "func" ->
               (match String.split_on_char ' ' rest with
